@@ -132,23 +132,115 @@ Proof.
   all: try (match goal with k : ukind |- _ => destruct k end; apply npae_app_nopub; [exact Eok|reflexivity]).
   all: try (apply npae_app_nopub; [exact Eok|apply pub_offs_unsub_out]).
   (* LEnqueue of a publication / LSrvPush with recovered publications: nothing ended yet *)
-  all: try (assert (Hne : has_end (log s) = false);
-            [ destruct (has_end (log s)) eqn:He; [|reflexivity]; exfalso;
+  all: try (match goal with IS0 : SInv _ ?s0 |- _ =>
+            assert (Hne : has_end (log s0) = false);
+            [ destruct (has_end (log s0)) eqn:He; [|reflexivity]; exfalso;
               destruct (Eend eq_refl) as [X|[X Y]]; try congruence; try discriminate;
-              match goal with Hd : dl s = DPub _ _ _ |- _ =>
-                assert (Hh : hub s = true) by (apply (i_dl_hub c s IS); congruence); congruence end
-            | rewrite <- ?app_assoc; apply npae_app_noend; [exact Hne|cbn; rewrite ?has_end_map_FPub; reflexivity] ]).
+              match goal with Hd : dl s0 = DPub _ _ _ |- _ =>
+                assert (Hh : hub s0 = true) by (apply (i_dl_hub c s0 IS0); congruence); congruence end
+            | rewrite <- ?app_assoc; apply npae_app_noend; [exact Hne|cbn; rewrite ?has_end_map_FPub; reflexivity] ] end).
   (* has_end obligations where the thread is not finished or the hub entry is gone *)
   all: try (intros He; destruct (Eend He) as [X|[X Y]]; [left; exact X|try discriminate; right; split; congruence]).
   all: try (intros He; right; split; [reflexivity|apply Eup; congruence]).
   (* up / ch / hub bookkeeping *)
-  all: try (intros k0 Hk; exfalso; assert (Hn : up s <> UIdle) by congruence; specialize (Eup Hn); discriminate).
+  all: try (intros k0 Hk; exfalso; match goal with IS0 : SInv _ ?s0 |- _ => assert (Hn : up s0 <> UIdle) by congruence end; specialize (Eup Hn); discriminate).
   all: try (intros Hc; rewrite (Efl eq_refl) in Hc; discriminate).
   all: try (intros Hn; apply Eup; congruence).
-  all: try (intros k0 _; destruct (hub s) eqn:Hh; [|reflexivity]; exfalso;
-            match goal with Hc : ch s = NoCh |- _ => destruct (Enoch Hc eq_refl) as [k' Hk'] end; congruence).
+  all: try (intros k0 _; match goal with IS0 : SInv _ ?s0 |- _ => destruct (hub s0) eqn:Hh; [|reflexivity]; exfalso;
+            match goal with Hc : ch s0 = NoCh |- _ => destruct (Enoch Hc eq_refl) as [k' Hk'] end; congruence end).
   all: try (intros Hc Hh; exfalso;
             first [ destruct (Enoch Hc Hh) as [k' Hk']; congruence
-                  | match goal with Hu : up s = UOut ?k1 |- _ => rewrite (Euo k1 Hu) in Hh; discriminate end ]).
-  all: idtac.
-Admitted.
+                  | match goal with Hu : up _ = UOut ?k1 |- _ => rewrite (Euo k1 Hu) in Hh; discriminate end ]).
+  (* LCheck on a publication *)
+  pose proof (check_pub_fields c s p lag) as F. cbv zeta in F.
+  destruct F as (F1 & F2 & F3 & F4 & F5 & F6 & F7 & F8 & F9 & F10 & F11 & F12 & F13 & F14 & F15).
+  pose proof (check_pub_ch c s p lag) as Fch.
+  constructor; rewrite ?F9, ?F10, ?F11, ?F12, ?F13, ?F14; try assumption.
+  - intros Hc. destruct (ch s) eqn:E; try (destruct Fch as (? & ? & Fch); congruence); try congruence.
+    apply Enoch. reflexivity.
+  - intros Hf. specialize (Efl Hf). rewrite Efl in Fch. exact Fch.
+  - intros pos' pep' Hc. destruct (ch s) eqn:E; try congruence. eapply Esub. reflexivity.
+  - intros Hp. destruct (check_pub_pending c s p lag) as [Ep|[Ep (pos0 & pep0 & Hs)]].
+    + apply Epend. congruence.
+    + pose proof (Esub _ _ Hs) as Hcm.
+      match goal with Hd : dl s = DPub _ _ PCheck |- _ =>
+        assert (Hw : in_window (pc s) = false);
+        [ destruct (in_window (pc s)) eqn:Ew; [|reflexivity]; exfalso;
+          pose proof (i_entry_pc c s IS Ew) as Hen;
+          destruct (i_entry_dl c s IS Hen _ _ _ Hd) as [X|[X _]]; discriminate | ] end.
+      destruct (pc s); try discriminate; reflexivity.
+Qed.
+
+(* ------------------------------------------------------------------ *)
+
+Record FInv (c : cfg) (s : st) : Prop := { f_s : SInv c s; f_e : EInv c s }.
+
+Lemma finv_run : forall c ls s s', c_pos c = true -> FInv c s -> run c s ls = Some s' -> FInv c s'.
+Proof.
+  induction ls as [|l ls IH]; intros s s' Hp I H; cbn [run] in H.
+  - inv_some H. exact I.
+  - destruct (step c s l) as [s1|] eqn:E; [|discriminate].
+    eapply IH; [exact Hp| |exact H]. destruct I as [IS IE]. constructor.
+    + eapply sinv_step; eauto.
+    + eapply einv_step; eauto.
+Qed.
+
+(* For every positioned subscription (patched or not) and every schedule: no positioned
+   publication is written after the frame that ended the subscription. *)
+Theorem c01_no_pub_after_end : forall c ls s,
+  c_pos c = true -> run c init ls = Some s -> no_pub_after_end (log s) = true.
+Proof.
+  intros c ls s Hp H.
+  assert (I : FInv c s).
+  { eapply finv_run; eauto. constructor; [apply sinv_init|apply einv_init]. }
+  apply (e_ok c s (f_e c s I)).
+Qed.
+
+(* Detection: each insufficient-state branch of the position check leaves the position
+   and the transport untouched and spawns the goroutine that ends the subscription. *)
+Theorem c01_detect_spawns : forall c s p lag pos pep,
+  c_pos c = true -> ch s = Sub pos pep -> dl s = DPub p lag PCheck ->
+  (lag = true \/ (pe p <> pep /\ pep <> 0) \/ (lag = false /\ pe p = pep /\ pos + 1 < po p)) ->
+  exists s', step c s LCheck = Some s' /\ pending s' = S (pending s) /\ log s' = log s /\
+             ch s' = ch s /\ dl s' = DIdle.
+Proof.
+  intros c s p lag pos pep Hp Hch Hd Hcase.
+  unfold step. rewrite Hd. eexists. split; [reflexivity|].
+  unfold check_pub. rewrite Hch, Hp. cbn [negb].
+  destruct Hcase as [->|[[Hne Hnz]|(-> & He & Hgt)]].
+  - unf; cbn. auto.
+  - destruct lag; [unf; cbn; auto|].
+    assert (E1 : (pe p =? pep) = false) by (apply N.eqb_neq; exact Hne).
+    assert (E2 : (pep =? 0) = false) by (apply N.eqb_neq; exact Hnz).
+    rewrite E1, E2. cbn [negb andb]. unf; cbn. auto.
+  - assert (E1 : (pe p =? pep) = true) by (apply N.eqb_eq; exact He).
+    rewrite E1. cbn [negb andb].
+    assert (E3 : (pos + 1 <? po p) = true) by (apply N.ltb_lt; exact Hgt).
+    rewrite E3. unf; cbn. auto.
+Qed.
+
+(* Client-side subscription: a spawned insufficient-state goroutine ends the subscription
+   with the insufficient-state unsubscribe push. *)
+Theorem c01_pending_ends_client : forall c s n pos pep,
+  c_var c = VClient -> pending s = S n -> up s = UIdle -> dl s = DIdle -> closed s = false ->
+  ch s = Sub pos pep ->
+  exists s', run c s [LUnsub UInsuff; LUnsubHub; LUnsubOut] = Some s' /\
+             log s' = log s ++ [FUnsubPush code_unsub_insufficient] /\
+             ch s' = NoCh /\ hub s' = false /\ pending s' = n.
+Proof.
+  intros c s n pos pep Hv Hp Hu Hd Hc Hch.
+  unfold run, step, up_idle, dl_idle, is_server, emit; unf.
+  repeat (rewrite ?Hu, ?Hp, ?Hv, ?Hch, ?Hd, ?Hc; cbn).
+  eexists. split; [reflexivity|]. cbn. auto.
+Qed.
+
+(* Server-side subscription: it closes the connection with the insufficient-state code. *)
+Theorem c01_pending_ends_server : forall c s n,
+  c_var c = VServer -> pending s = S n -> closed s = false ->
+  exists s', step c s LAsyncDisc = Some s' /\
+             log s' = log s ++ [FDisconnect code_disc_insufficient] /\ closed s' = true.
+Proof.
+  intros c s n Hv Hp Hc. unfold step, is_server, emit; unf.
+  repeat (rewrite ?Hp, ?Hv, ?Hc; cbn).
+  eexists. split; [reflexivity|]. cbn. auto.
+Qed.
